@@ -54,6 +54,20 @@ Theorem C04_send_delivery_bounds : forall H T0 T1 keys k v te ri rr si sr (other
 Proof. exact send_delivery_bounds. Qed.
 Print Assumptions C04_send_delivery_bounds.
 
+(* a pipeline registered before the Send started and at most overwritten (each overwrite ONE Store, see the re-checked
+   obligation coq/obligations/Obl_roots.v) until the Send ended is delivered to in exactly one of its versions *)
+Theorem C04_send_delivery_some : forall H T0 T1 keys k v te ri rr si sr (others : list obs_op),
+  send_in H T0 T1 keys -> In k keys -> (exists tv, In (tv, Visit k) H) ->
+  (si < T0)%N -> (T1 < sr)%N ->
+  In (te, EnvStore k v) H -> (ri < te)%N -> (te < rr)%N ->
+  (forall t l, In (t, l) H -> touches k l -> (t, l) <> (te, EnvStore k v) ->
+     exists o, In o others /\ oo_lab o = l /\ (oo_inv o < t)%N /\ (t < oo_ret o)%N) ->
+  must_some ri rr si sr others = true ->
+  exists v', count k v' (visited (exec (labels H))) = 1%nat /\
+             forall v'', v'' <> v' -> count k v'' (visited (exec (labels H))) = 0%nat.
+Proof. exact send_delivery_some. Qed.
+Print Assumptions C04_send_delivery_some.
+
 Theorem C04_never_stored_never_delivered : forall H T0 T1 keys k v,
   send_in H T0 T1 keys -> (forall t, ~ In (t, EnvStore k v) H) -> count k v (visited (exec (labels H))) = 0%nat.
 Proof. exact never_stored_never_delivered. Qed.
